@@ -74,6 +74,7 @@ type verifPending struct {
 	outNonce  uint32
 	staleTok  []byte // token of an earlier, no longer pending Interest of the same PIT entry: if the forwarder has not yet
 	// reaped that entry this Interest joined it and is reachable through the old token; allowed, not required
+	satisfied bool // consumed by a Data packet
 	maybe     bool // the forwarder may have dropped this Interest (its nonce may be on the dead nonce list): nothing is required or forbidden for it
 }
 
@@ -659,6 +660,29 @@ func (r *verifRig) data(d verifDataIn, check string) {
 	}
 	for _, p := range sat {
 		p.live = false
+		p.satisfied = true
+	}
+	if check == "C08" {
+		// "promptly once it is satisfied": the reaper's next run (no time needs to pass) removes every entry this Data
+		// satisfied; what remains are entries holding an Interest that no Data has consumed (pending, or expired and
+		// not reaped yet)
+		verifNoPanic("C08/reaper-no-panic", func() { r.th.pitCS.Update() })
+		var groups []*verifPending
+		for _, p := range r.pend {
+			if p.satisfied {
+				continue
+			}
+			dup := false
+			for _, g := range groups {
+				if r.sameEntry(g, p.name, p.cbp, p.mbf) {
+					dup = true
+				}
+			}
+			if !dup {
+				groups = append(groups, p)
+			}
+		}
+		verifAssert(r.th.pitCS.PitSize() <= len(groups), "C08/satisfied-pit-entries-are-removed-promptly")
 	}
 }
 
